@@ -598,7 +598,10 @@ func (w *c12World) checkJob(job *c12Job) {
 		excused := false
 		if !job.a.doNotCache {
 			for _, o := range w.jobs {
-				if o != job && o.a == job.a && o.gotDir && o.getStart < job.getEnd && (o.closeEnd == 0 || o.closeEnd > job.getStart) {
+				// The twin owns (or is about to be told it owns) the
+				// digest-named directory from some point after it asked
+				// for it until its Close returned.
+				if o != job && o.a == job.a && o.getStart > 0 && o.getStart < job.getEnd && (o.getEnd == 0 || o.gotDir) && (o.closeEnd == 0 || o.closeEnd > job.getStart) {
 					excused = true
 				}
 			}
